@@ -251,7 +251,7 @@ def build_class(prog):
     def outputs(self):
         # a class whose public `outputs` is more than what was emitted (a derived entry): "the outputs" are what the accessor says
         base = plumpy.Process.outputs.fget(self)
-        if self.__dict__.get('_verif_uout') and base:
+        if self.__dict__.get('_verif_derived') and base:
             return dict(base, derived=len(base))
         return base
     cls.outputs = property(outputs)
@@ -440,6 +440,8 @@ class Run:
                 p.__dict__['_verif_hookstatus'] = True
             if uout:            # (not for the runs that are checkpointed: outputs are part of the saved state)
                 p.__dict__['_verif_uout'] = True
+                if driver == 'steps':       # (half of them: the class also overrides the public `outputs` accessor)
+                    p.__dict__['_verif_derived'] = True
         else:
             self.p = p = process
         p._trace = []
